@@ -214,8 +214,12 @@ def load_known(prop: str) -> Tuple[List[Dict[str, Any]], List[str]]:
     return [k for k in data.get("findings", []) if k["property"] == prop], data.get("fixed", [])
 
 
-def match_known(known: List[Dict[str, Any]], signature: str) -> Optional[Dict[str, Any]]:
+def match_known(known: List[Dict[str, Any]], signature: str, avoid: Any = ()) -> Optional[Dict[str, Any]]:
+    """A listed finding explains a violation only if its signature matches AND the run did
+    not avoid the finding's triggering shape (a run that avoids the shape cannot have hit it)."""
     for k in known:
+        if k.get("mask") and k["mask"] in avoid:
+            continue
         if re.fullmatch(k["signature_regex"], signature):
             return k
     return None
@@ -411,18 +415,29 @@ def main(argv: Optional[List[str]] = None) -> int:
 
     # group violations by signature, first occurrence in index order
     vio.sort(key=lambda v: v["index"])
+    # group by (signature, explained-by-a-listed-finding?): a violation in a run that avoided the
+    # finding's shape is never explained by that finding
     first: Dict[str, Dict[str, Any]] = {}
     for v in vio:
-        first.setdefault(v["signature"], v)
+        k0 = match_known(known, v["signature"], v.get("avoid", ()))
+        key = v["signature"] + ("|@known:" + k0["id"] if k0 else "")
+        v["_known"] = k0
+        first.setdefault(key, v)
 
     new_violations: List[Tuple[Dict[str, Any], str]] = []
+    extra_sigs: List[str] = []
+    MAX_MINIMISED = 3
     known_hit: Dict[str, int] = {}
     rc = 0
     shrink_budget = 400 if tier == "quick" else 1500
-    for sig, v in first.items():
-        k = match_known(known, sig)
+    for key, v in first.items():
+        sig = v["signature"]
+        k = v["_known"]
         if k is not None:
             known_hit[k["id"]] = known_hit.get(k["id"], 0) + sigc[sig]
+            continue
+        if len(new_violations) >= MAX_MINIMISED:
+            extra_sigs.append(sig)
             continue
         m = minimise(mod, prop, v, opts, shrink_budget)
         if not m.get("reproduced"):
@@ -443,6 +458,8 @@ def main(argv: Optional[List[str]] = None) -> int:
         print(f"VIOLATION property={prop} replay={path}")
         rc = 1
 
+    if extra_sigs:
+        print(f"{len(extra_sigs)} further violation signature(s) not minimised: {extra_sigs[:8]}")
     for k in known:
         if k["id"] in known_hit:
             print(f"KNOWN-FINDING: property={prop} {k['what']}  [{k['id']}: reproduced in {known_hit[k['id']]} run(s)]")
@@ -478,7 +495,7 @@ def main(argv: Optional[List[str]] = None) -> int:
             "planned_runs": nruns,
             "known_findings_reproduced": known_hit,
             "known_findings_listed": [k["id"] for k in known],
-            "new_violation_signatures": [v["signature"] for v, _ in new_violations],
+            "new_violation_signatures": [v["signature"] for v, _ in new_violations] + extra_sigs,
             "technique": "deterministic simulation with fault injection: seeded search over schedules, "
                          "faults and workloads; oracle per run; replay = recorded choice stream",
         },
